@@ -85,6 +85,12 @@ Theorem C18_parser_labels_match_instances : forall lines rows labs,
 Proof. exact parse_ts_labels_match_instances. Qed.
 Print Assumptions C18_parser_labels_match_instances.
 
+(* ... and is a rectangular frame: all instances have the same, positive number of dimensions *)
+Theorem C18_parser_frame_rectangular : forall lines rows labs,
+  parse_ts lines = Ok (rows, labs) -> exists nd, 0 < nd /\ Forall (fun r => len r = nd) rows.
+Proof. exact parse_ts_rectangular. Qed.
+Print Assumptions C18_parser_frame_rectangular.
+
 (* one labelled equal-length panel in the three formats: the .arff and .tsv parsers return the
    same value tokens and class values, the .ts parser the same tokens and the class values
    lower-cased *)
@@ -123,6 +129,16 @@ Theorem C18_split_forms_consistent : forall train test Xtr ytr Xte yte,
     map fst (single_frame (X, y)) = X /\ map snd (single_frame (X, y)) = y.
 Proof. exact split_forms_consistent. Qed.
 Print Assumptions C18_split_forms_consistent.
+
+(* sensitivity: with the header line of the historic defect ("@class_label false", fixed in /repo)
+   the model writer produces files the model parser rejects, although every hypothesis of the
+   round-trip theorem holds -- the theorem depends on the regenerated tag literals *)
+Theorem C18_old_class_label_header_unreadable :
+  exists o panel lines,
+    opts_ok o /\ panel <> [] /\ Forall row_ok panel /\ vals_ok o panel [] /\
+    write_ts_with old_writer_header o panel [] = Ok lines /\ parse_ts lines = Err.
+Proof. exact old_writer_header_unreadable. Qed.
+Print Assumptions C18_old_class_label_header_unreadable.
 
 (* the hypotheses are satisfiable by a non-trivial instance (mixed-case labels, padded and
    upper-case-exponent tokens, comment, both length headers), and the round trip computes *)
